@@ -18,7 +18,7 @@ import sys
 
 from harness import common, par, refbroker, vrt
 
-BLOCKERS = ['rpc', 'confirm', 'get', 'body', 'consume', 'chan-open', 'close', 'idle-call', 'pde', 'gen']
+BLOCKERS = ['rpc', 'confirm', 'get', 'body', 'consume', 'chan-open', 'close', 'idle-call', 'pde', 'gen', 'cancel']
 KINDS = ['eof', 'reset', 'epipe', 'poll-error']
 SLACK_MS = 30
 
@@ -142,8 +142,8 @@ def blocked_one(args):
             chans[i] = ch
             if b == 'confirm':
                 ch.confirm_deliveries()
-            elif b in ('consume', 'pde', 'gen'):
-                ch.basic.consume(lambda m: None, 'cq%d' % i)
+            elif b in ('consume', 'pde', 'gen', 'cancel'):
+                ch.basic.consume(lambda m: None, 'cq%d' % i, consumer_tag='ctag%d' % i)
             elif b == 'body':
                 ch.queue.declare('bq')
                 broker.queues['bq'].append((spec.Basic.Properties(), b'z' * 300, '', 'bq'))
@@ -170,6 +170,8 @@ def blocked_one(args):
                 elif b == 'pde':
                     while True:
                         ch.process_data_events()
+                elif b == 'cancel':
+                    ch.basic.cancel('ctag%d' % i)          # holds the channel lock for the whole round trip
                 elif b == 'chan-open':
                     c2 = conn.channel(rpc_timeout=60)
                     chans[i] = c2
